@@ -694,8 +694,30 @@ Proof. intros F. apply run_refines; auto. apply inv2_init. apply rel_init. Qed.
 (* parse_core is packageParse.parse while the housekeeping pass has nothing to do *)
 Lemma parse_core_parse now vs d : Subpkg.fresh now (Subpkg.ps_x vs) -> Subpkg.parse now vs d = parse_core now vs d.
 Proof.
-  intros Fr. unfold Subpkg.parse, parse_core.
+  intros Fr. unfold Subpkg.parse, parse_core. rewrite (Subpkg_seg.delete_timeout_fresh _ _ Fr).
   pose proof (Subpkg_seg.fresh_cp_loop now (Unpack.u_msgs (Unpack.unpack (Subpkg.ps_hist vs) d)) _ Fr) as F1.
   destruct (Subpkg.cp_loop now (Subpkg.ps_x vs) _) as [s1 outs]. cbn [fst] in F1.
   rewrite (Subpkg_seg.housekeeping_fresh _ _ F1). cbn [map]. now rewrite app_nil_r.
+Qed.
+
+(* ================= replies ================= *)
+Theorem reply_frame_stable bufsz evs k m : delivered_at cur bufsz evs k m ->
+  forall j, S k <= j -> forall kd s rid ps,
+  reply_frame_at (p_heap (state_at cur bufsz evs j)) m kd s rid ps =
+  reply_frame_at (p_heap (state_at cur bufsz evs (S k))) m kd s rid ps.
+Proof.
+  intros D j Hj kd s rid ps. pose proof (stable _ _ _ _ D j Hj) as E.
+  unfold content in E. injection E as E1 E2 E3. unfold reply_frame_at. now rewrite E2, E3.
+Qed.
+
+Theorem reply_frame_own bufsz evs k m : delivered_at cur bufsz evs k m -> m_sum (d_hdr m) = 0%N ->
+  forall j, S k <= j -> forall kd s rid ps,
+  reply_frame_at (p_heap (state_at cur bufsz evs j)) m kd s rid ps =
+  match snd (Reply.reply_body kd s (d_hdr m)) with
+  | Some b => Some (encode (d_hdr m) rid ps b)
+  | None => None
+  end.
+Proof.
+  intros D Hs j Hj kd s rid ps. destruct (delivered_ook _ _ _ _ D j Hj) as (O1 & _ & O3 & _).
+  unfold reply_frame_at. now rewrite O1, (O3 Hs), set_body_same, with_bcd_same.
 Qed.
